@@ -8,6 +8,7 @@ after every call), plus the listing.
 """
 import atexit
 import copy
+import gc
 import io
 import os
 import shutil
@@ -46,7 +47,7 @@ PROBES = ["extractfile_before_lookup", "clients_start_before_any_listing", "file
           "readline_unterminated_last_line_odd", "readline_unterminated_last_line_even",
           "readline_n_crossing_member_end", "read_after_seek_past_end",
           "alternating_single_byte_reads", "duplicate_name_lookup", "empty_member",
-          "two_arfiles_one_fileobj", "opened_by_filename", "readlines_on_non_last_member",
+          "two_arfiles_one_fileobj", "opened_by_filename", "archive_object_dropped_members_kept", "readlines_on_non_last_member",
           "bsd_style_name", "payload_contains_header_magic"]
 
 _STATE = {}
@@ -178,8 +179,10 @@ def generate(seed, run, tier):
             st["w"] = rq.choice([0, 0, 1, 2])
             st["rel_end"] = rq.random() < 0.5   # interpret t as distance from the end
         steps.append(st)
+    # lifetime: the clients take the members and let go of the archive object itself
+    detach = [rs.random() < 0.2 for _ in range(narch)]
     return {"world": {"members": members, "archives": archives, "list_first": list_first,
-                      "prior": prior}, "trace": steps}
+                      "prior": prior, "detach": detach}, "trace": steps}
 
 
 def describe(case):
@@ -208,6 +211,7 @@ def execute(case):
     path = None
     ars = []
     stale = []
+    kept = {}
     try:
         for kind in world["archives"]:
             if kind == "filename":
@@ -293,6 +297,19 @@ def execute(case):
             out.probe("bsd_style_name")
         if any(b"`\n" in d for d in datas):
             out.probe("payload_contains_header_magic")
+        # ---- lifetime: members taken, archive object dropped (and collected)
+        detach = world.get("detach") or []
+        for ai in range(len(ars)):
+            if ai < len(detach) and detach[ai] and members:
+                kept[ai] = list(ars[ai].getmembers())
+                if len(kept[ai]) != len(members):
+                    raise Violation("listing-differs", "getmembers",
+                                    {"archive": ai, "got": len(kept[ai]), "want": len(members)})
+                ars[ai] = None
+                out.probe("archive_object_dropped_members_kept")
+        r = ar = None
+        if kept:
+            gc.collect()
         # ---- interleaved clients
         models = {}
         inter = []
@@ -307,7 +324,9 @@ def execute(case):
             via = st.get("via", "members")
             ar = ars[ai]
             try:
-                if via in ("getmember", "getitem"):
+                if ai in kept:
+                    h = kept[ai][mi]
+                elif via in ("getmember", "getitem"):
                     mi = last[names[mi]]
                     h = ar.getmember(names[mi]) if via == "getmember" else ar[names[mi]]
                 elif via == "extractfile":
@@ -415,11 +434,11 @@ def execute(case):
             out.states.add(stable_hash([len(members), sorted(
                 (k[0], k[1], m.tell()) for k, m in models.items())]))
         for ai, ar in enumerate(ars):
-            if not lf[ai % len(lf)]:
+            if not lf[ai % len(lf)] and ar is not None:
                 check_listing(ai, ar)
         # ---- end of run: every touched handle still yields exactly its bytes
         for (ai, mi) in sorted(models):
-            got_members = ars[ai].getmembers()
+            got_members = kept[ai] if ai in kept else ars[ai].getmembers()
             if len(got_members) != len(members):
                 raise Violation("listing-differs", "getmembers",
                                 {"archive": ai, "got": len(got_members), "want": len(members)})
@@ -434,8 +453,9 @@ def execute(case):
         out.interleaving = stable_hash(inter)
         out.nontrivial = len(used) >= 2 and returned_data
     finally:
-        for ar in ars + stale:
-            for m in ar.getmembers():
+        for ms_ in [a_.getmembers() for a_ in ars + stale if a_ is not None] + \
+                [kept[a_] for a_ in sorted(kept)]:
+            for m in ms_:
                 try:
                     m.close()
                 except Exception:   # pylint: disable=broad-except
@@ -481,6 +501,11 @@ def shrink_candidates(case):
         if a != "fileobj":
             c = copy.deepcopy(case)
             c["world"]["archives"][i] = "fileobj"
+            yield c
+    for i, a in enumerate(w.get("detach") or []):
+        if a:
+            c = copy.deepcopy(case)
+            c["world"]["detach"][i] = False
             yield c
     for i, st in enumerate(case["trace"]):
         if st.get("via", "members") != "members":
